@@ -1,4 +1,6 @@
 """Shared helpers for the tensor-level checks (C01, C02, C03, C14, C15 ...)."""
+import os
+import sys
 import traceback
 
 import numpy as np
@@ -127,6 +129,8 @@ def call_timed(seconds, f, *a, **k):
     import signal
 
     def handler(signum, frame):
+        if os.environ.get('VERIF_DUMP_TIMEOUT') == '1':
+            traceback.print_stack(frame, file=sys.stderr)
         raise CallTimeout()
     old = signal.signal(signal.SIGALRM, handler)
     signal.setitimer(signal.ITIMER_REAL, seconds)
